@@ -63,3 +63,16 @@ func (e *baseFibStrategyEntry) GetStrategy() enc.Name {
 func (e *baseFibStrategyEntry) GetNextHops() []*FibNextHopEntry {
 	return e.nexthops
 }
+
+// snapshot returns a copy of the entry for use outside the table lock.
+// The listing functions hand these out instead of the live entries, whose
+// nexthops and strategy fields are reassigned by writers holding the lock.
+// (Names, strategy names and nexthop entries are never modified in place.)
+func (e *baseFibStrategyEntry) snapshot() *baseFibStrategyEntry {
+	return &baseFibStrategyEntry{
+		component: e.component,
+		name:      e.name,
+		nexthops:  append([]*FibNextHopEntry(nil), e.nexthops...),
+		strategy:  e.strategy,
+	}
+}
